@@ -295,6 +295,27 @@ func ConvertToLua(L *lua.LState, val resp.Value) lua.LValue {
 }
 
 // ConvertToRESP convert lua LValue to RESP value
+// luaMaxReplyNesting is how deep the tables of a script's result may nest.
+const luaMaxReplyNesting = 128
+
+// luaNestingExceeds reports whether val holds tables nested deeper than limit.
+func luaNestingExceeds(val lua.LValue, limit int) bool {
+	tbl, ok := val.(*lua.LTable)
+	if !ok {
+		return false
+	}
+	if limit == 0 {
+		return true
+	}
+	exceeds := false
+	tbl.ForEach(func(k, v lua.LValue) {
+		if !exceeds {
+			exceeds = luaNestingExceeds(k, limit-1) || luaNestingExceeds(v, limit-1)
+		}
+	})
+	return exceeds
+}
+
 func ConvertToRESP(val lua.LValue) resp.Value {
 	switch val.Type() {
 	case lua.LTNil:
@@ -551,6 +572,11 @@ func (s *Server) cmdEvalUnified(scriptIsSha bool, msg *Message) (res resp.Value,
 	}
 	ret := luaState.Get(-1) // returned value
 	luaState.Pop(1)
+	if luaNestingExceeds(ret, luaMaxReplyNesting) {
+		// also a table that contains itself: converting it would recurse
+		// until the process runs out of stack
+		return NOMessage, errors.New("script result is nested too deeply")
+	}
 
 	switch msg.OutputType {
 	case JSON:
